@@ -663,6 +663,89 @@ def rule_position(ctx, sig, body, arg):
     return sig, new
 
 
+def rule_unwrapelse(ctx, sig, body, arg):
+    """@rule unwrapelse: `X.unwrap_or_else(|| E)` -> `match X { Some(v__) => v__, None => E }`
+    (definition of Option::unwrap_or_else; Verus does not support passing closures to library functions)."""
+    m = re.search(r'(\b[\w\.]+)\s*\.\s*unwrap_or_else\(\s*\|\|\s*', body)
+    if not m:
+        raise RuleError('no `X.unwrap_or_else(|| ..)`')
+    toks = tokenize(body)
+    ct = code_tokens(toks)
+    # the opening parenthesis of unwrap_or_else(
+    idx = next(i for i, t in enumerate(ct) if t.kind == 'ident' and t.text == 'unwrap_or_else' and t.pos >= m.start()) + 1
+    close = match_close(ct, idx)
+    inner = body[ct[idx].end:ct[close].pos].strip()
+    if not inner.startswith('||'):
+        raise RuleError('unwrapelse: closure with parameters')
+    e = inner[2:].strip()
+    x = m.group(1)
+    new = f'(match {x} {{ Some(v__) => v__, None => {e} }})'
+    ctx.note('R-unwrapelse', body[m.start():ct[close].end], new)
+    return sig, body[:m.start()] + new + body[ct[close].end:]
+
+
+def rule_hoist(ctx, sig, body, arg):
+    """@rule hoist A ;; B ;; ...: the match-arm expression `PAT => E,` that contains the call expressions A, B, ... (in this textual
+    order, as arguments of one enclosing expression) becomes `PAT => { let hoist__1 = A; let hoist__2 = B; E' },` with the calls replaced
+    by the variables. Rust evaluates the operands of an expression from left to right, so naming them in that order does not change the
+    behaviour; the names give proof hints a place between the calls."""
+    parts = [a.strip() for a in arg.split(';;') if a.strip()]
+    toks = tokenize(body)
+    ct = code_tokens(toks)
+
+    def find_seq(text, from_pos):
+        want = [t.text for t in code_tokens(tokenize(text))]
+        for i in range(len(ct) - len(want) + 1):
+            if ct[i].pos >= from_pos and [t.text for t in ct[i:i + len(want)]] == want:
+                return i, i + len(want) - 1
+        return None
+
+    spans = []
+    pos = 0
+    for a in parts:
+        r = find_seq(a, pos)
+        if r is None:
+            raise RuleError(f'hoist: `{a}` not found')
+        spans.append(r)
+        pos = ct[r[1]].end
+    first = spans[0][0]
+    # nearest preceding `=>`
+    k = first
+    while k >= 0 and not (ct[k].text == '=' and ct[k + 1].text == '>' and ct[k + 1].pos == ct[k].end) and ct[k].text != '=>':
+        k -= 1
+    if k < 0:
+        raise RuleError('hoist: no enclosing match arm')
+    start_tok = k + (1 if ct[k].text == '=>' else 2)
+    # end of the arm expression: first `,` at depth 0 (or the token before the `}` that closes the match)
+    depth = 0
+    j = start_tok
+    while j < len(ct):
+        t = ct[j].text
+        if t in '([{':
+            depth += 1
+        elif t in ')]}':
+            if depth == 0:
+                break
+            depth -= 1
+        elif t == ',' and depth == 0:
+            break
+        j += 1
+    if spans[-1][1] >= j:
+        raise RuleError('hoist: expressions are not inside one match arm')
+    e_start, e_end = ct[start_tok].pos, ct[j - 1].end
+    expr = body[e_start:e_end]
+    lets = []
+    # replace from the last to the first so that offsets stay valid
+    for n, (a, b) in reversed(list(enumerate(spans, 1))):
+        s0, s1 = ct[a].pos - e_start, ct[b].end - e_start
+        lets.append(f'let hoist__{n} = {expr[s0:s1]};')
+        expr = expr[:s0] + f'hoist__{n}' + expr[s1:]
+    lets.reverse()
+    new = '{\n            ' + '\n            '.join(lets) + '\n            ' + expr + '\n        }'
+    ctx.note('R-hoist', body[e_start:e_end], new)
+    return sig, body[:e_start] + new + body[e_end:]
+
+
 def rule_nocallback(ctx, sig, body, arg):
     """R-callback (call sites of the public wrappers): the argument `&mut dont_track_progress` (the no-op observer) is dropped,
     matching the removal of the `progress_callback` parameter from the callee."""
